@@ -24,6 +24,7 @@
    strong (refuted in properties/C02_full.v: C02_full_statement_refuted) and is kept only so that the refutation and the
    corrected, proved statement (C02_full_partial : C02_full_corrected_statement) can refer to it.
    Without the hypothesis ids_consistent even the corrected statement is false (x3_channel_redefinition_refutes). *)
+From Mcap Require ConstsTie LayoutTie DecisionTieR. (* regenerated ties to /repo's source that this property's model relies on *)
 From Coq Require Import List NArith ZArith Bool Permutation Sorted.
 From Coq.Strings Require Import Byte.
 From RecordUpdate Require Import RecordSet.
